@@ -74,22 +74,23 @@ class RegisterModeOperandStub:
         # great for function calls, but terrible for index addressing. Hence
         # we're 'hoisting' registers up here.
         def hoist(token):
+            # The token tree is shared between all compilations of this statement
+            # (e.g. every iteration of '.repeat'), so it must not be modified here:
+            # hoisted nodes are rebuilt instead.
             if isinstance(token, operators.InfixOperator) and not isinstance(token, operators.call):
-                token.rhs = hoist(token.rhs)
-                if isinstance(token.rhs, operators.call) and try_as_register(token.rhs.rhs, state) is not None:
-                    register = token.rhs.rhs
-                    ctx_end = token.ctx_end
-                    token.rhs = token.rhs.lhs
-                    token.ctx_end = token.rhs.ctx_end
-                    return operators.call(token.ctx_start, ctx_end, token, register)
+                rhs = hoist(token.rhs)
+                if isinstance(rhs, operators.call) and try_as_register(rhs.rhs, state) is not None:
+                    inner = type(token)(token.ctx_start, rhs.lhs.ctx_end, token.lhs, rhs.lhs)
+                    return operators.call(token.ctx_start, token.ctx_end, inner, rhs.rhs)
+                if rhs is not token.rhs:
+                    return type(token)(token.ctx_start, token.ctx_end, token.lhs, rhs)
             elif isinstance(token, operators.PrefixOperator):
-                token.operand = hoist(token.operand)
-                if isinstance(token.operand, operators.call) and try_as_register(token.operand.rhs, state) is not None:
-                    register = token.operand.rhs
-                    ctx_end = token.ctx_end
-                    token.operand = token.operand.lhs
-                    token.ctx_end = token.operand.ctx_end
-                    return operators.call(token.ctx_start, ctx_end, token, register)
+                inner_operand = hoist(token.operand)
+                if isinstance(inner_operand, operators.call) and try_as_register(inner_operand.rhs, state) is not None:
+                    inner = type(token)(token.ctx_start, inner_operand.lhs.ctx_end, inner_operand.lhs)
+                    return operators.call(token.ctx_start, token.ctx_end, inner, inner_operand.rhs)
+                if inner_operand is not token.operand:
+                    return type(token)(token.ctx_start, token.ctx_end, inner_operand)
             return token
         operand = hoist(operand)
 
